@@ -60,10 +60,33 @@ type world struct {
 	putPath   string
 	putData   string
 	putCalled bool
+	// a backend with STATE (putseq cases): what a successful Put stored is retrievable
+	// afterwards at the request path and at the path the backend answered
+	stateful bool
+	stored   map[string]*Obj
+}
+
+// remember is called by the Put methods of a stateful double.
+func (w *world) remember(reqPath, data string) {
+	if !w.stateful || w.putRet.Kind != "found" {
+		return
+	}
+	o := *w.putRet.Obj
+	o.Data = data
+	if w.stored == nil {
+		w.stored = map[string]*Obj{}
+	}
+	w.stored[reqPath] = &o
+	if o.Path != "" {
+		w.stored[o.Path] = &o
+	}
 }
 
 func (w *world) get(p string) (*Obj, error) {
 	w.getCalls = append(w.getCalls, p)
+	if so, ok := w.stored[p]; ok {
+		return so, nil
+	}
 	o, ok := w.byPath[p]
 	if !ok {
 		return nil, webdav.NewHTTPError(404, fmt.Errorf("not in the double"))
@@ -135,6 +158,7 @@ func (b calBackend) QueryCalendarObjects(ctx context.Context, p string, q *calda
 }
 func (b calBackend) PutCalendarObject(ctx context.Context, p string, c *ical.Calendar, opts *caldav.PutCalendarObjectOptions) (*caldav.CalendarObject, error) {
 	b.w.putCalled, b.w.putPath, b.w.putData = true, p, calK(c)
+	b.w.remember(p, b.w.putData)
 	if b.w.putRet.Kind != "found" {
 		return nil, buildErr(false, b.w.putRet)
 	}
@@ -197,6 +221,7 @@ func (b cardBackend) QueryAddressObjects(ctx context.Context, p string, q *cardd
 }
 func (b cardBackend) PutAddressObject(ctx context.Context, p string, c vcard.Card, opts *carddav.PutAddressObjectOptions) (*carddav.AddressObject, error) {
 	b.w.putCalled, b.w.putPath, b.w.putData = true, p, cardK(c)
+	b.w.remember(p, b.w.putData)
 	if b.w.putRet.Kind != "found" {
 		return nil, buildErr(true, b.w.putRet)
 	}
